@@ -205,7 +205,7 @@ func c06Sub(w *W) {
 			w.Op("pub%d publishes %q (race=%v)", (a/4)%len(pubs), bodies, race)
 			pc := w.Do("publish", func() (interface{}, error) {
 				for _, b := range bodies {
-					if err := p.Send(b); err != nil {
+					if err := SendOwn(p, b); err != nil {
 						return nil, err
 					}
 				}
@@ -320,7 +320,7 @@ func c06Sub(w *W) {
 			seq++
 			body := append(append([]byte(nil), c.subs[0]...), fmt.Sprintf("#%d", seq)...)
 			published[string(body)] = true
-			if err := pubs[0].Send(body); err != nil {
+			if err := SendOwn(pubs[0], body); err != nil {
 				w.Failf("C06/publish-failed", "%v", err)
 				return
 			}
@@ -435,7 +435,7 @@ func c06Pub(w *W) {
 		}
 		calls = append(calls, w.Do(fmt.Sprintf("sender%d", t), func() (interface{}, error) {
 			for _, b := range sent[t] {
-				if err := s.Send([]byte(b)); err != nil {
+				if err := SendOwn(s, []byte(b)); err != nil {
 					return nil, err
 				}
 			}
